@@ -6,7 +6,7 @@
    RFCs, not from the Rust parser). *)
 From Coq Require Import List NArith Bool.
 From RB Require Import Base.Val Model.Caps Model.WireEnc Spec.WireRead Spec.WireEncSpec Spec.WireReadFam Spec.WireFamSpec
-     Proofs.WireEnc Proofs.WireEncFam Proofs.WireEncFix.
+     Proofs.WireEnc Proofs.WireEncFam Proofs.WireEncFix Proofs.WireEncSound.
 Import ListNotations.
 Open Scope N_scope.
 
@@ -350,3 +350,19 @@ Check structured_fixpoint :
     enc_nlri p (canon_struct n) = enc_nlri p n /\
     forall enc rest, enc_nlri p n = Ok enc -> read_struct k (enc ++ rest) = Some (canon_struct n, rest).
 Print Assumptions structured_fixpoint.
+
+(* (17) decode (encode (decode b)) = decode b for the NLRI of the structured families: whatever
+   octet string [b] the RFC reader of the family accepts, the value [v] it returns is encoded by
+   the implementation's encoder (no panic, either build profile) and that encoding reads as [v]
+   again.  (The reader is the structural one of Spec/WireReadFam.v; the Rust decoder is
+   property C03's and is tied to this clause by the harness check on every run.) *)
+Theorem decode_encode_decode_fixpoint_nlri :
+  forall (p : profile) (k : skind) (b : list N) (v : nlri) (rest : list N),
+    bytes_ok b -> read_struct k b = Some (v, rest) ->
+    exists enc, enc_nlri p v = Ok enc /\ forall rest', read_struct k (enc ++ rest') = Some (v, rest').
+Proof. exact C04_decode_encode_decode_fixpoint. Qed.
+Check decode_encode_decode_fixpoint_nlri :
+  forall (p : profile) (k : skind) (b : list N) (v : nlri) (rest : list N),
+    bytes_ok b -> read_struct k b = Some (v, rest) ->
+    exists enc, enc_nlri p v = Ok enc /\ forall rest', read_struct k (enc ++ rest') = Some (v, rest').
+Print Assumptions decode_encode_decode_fixpoint_nlri.
